@@ -136,14 +136,13 @@ func (s *System) Tick(t int64) {
 	// add background coroutines
 	for _, bg := range s.background {
 		if !s.api.Done() && (t-bg.last) >= int64(s.config.SignalTimeout.Milliseconds()) && (bg.promise == nil || bg.promise.Completed()) {
-			bg.last = t
-
 			tags := map[string]string{
 				"id":   fmt.Sprintf("%s:%d", bg.name, t),
 				"name": bg.name,
 			}
 
 			if p, ok := gocoro.Add(s.scheduler, bg.coroutine(s.config, tags)); ok {
+				bg.last = t
 				bg.promise = p
 				s.coroutineMetrics(p, tags)
 			} else {
